@@ -276,11 +276,33 @@ theorem C01.dense_applyAxpyQ_spec (A : Dense Rat) (x y r : Array Rat) (alpha : R
       rw [C01.dense_kernelT_eq (tinyRat epsQ) A alpha 1 x y r ali i hi, hyy, ht1]
       simp; ring
 
-/-- model of finding F1 (FINDINGS_C01.md): on the empty 0×0 dense matrix the aliasing assertion
-    `r.elements() != x.elements()` compares two null pointers and aborts instead of returning the empty vector -/
-theorem C01.dense_empty_aborts {α : Type} [Field α] (tiny : α → Bool) (A : Dense α) (x r : Array α) (tr : Bool)
-    (hr : r.size = 0) (hx : x.size = 0) : A.apply tiny x r tr = none := by
-  simp [Dense.apply, hr, hx]
+/-- (former finding F1, fixed in /repo by 2dc37e78b) **an empty result is the identity on `r` and never aborts**: every
+    `apply` member of `DenseMatrix` and `SparseMatrixBanded` first checks the sizes, then returns at once when `r` is
+    empty (`if (r.size() == Index(0)) return;`, before the aliasing assertion that used to compare two null pointers) —
+    also `SparseMatrixBanded::apply_transposed` of an n×0 matrix, which therefore no longer reaches "not implemented". -/
+theorem C01.empty_result_is_identity {α : Type} [Field α] (tiny : α → Bool) (x y r : Array α) (alpha : α)
+    (ali tr : Bool) (hr0 : r.size = 0) :
+    (∀ A : Dense α, (if tr then A.cols else A.rows) = 0 → x.size = (if tr then A.rows else A.cols) →
+      A.apply tiny x r tr = some r ∧ (y.size = 0 → A.applyAxpy tiny x y r alpha ali tr = some r)) ∧
+    (∀ A : Banded α, (if tr then A.cols else A.rows) = 0 → x.size = (if tr then A.rows else A.cols) →
+      A.apply tiny x r tr = some r ∧ (y.size = 0 → A.applyAxpy tiny x y r alpha ali tr = some r)) := by
+  constructor
+  · intro A h0 hx
+    cases tr <;> simp_all [Dense.apply, Dense.applyAxpy]
+  · intro A h0 hx
+    cases tr <;> simp_all [Banded.apply, Banded.applyAxpy]
+
+/-- … while a size mismatch is still reported by an assertion abort (it comes before the early return) -/
+theorem C01.size_mismatch_aborts {α : Type} [Field α] (tiny : α → Bool) (x y r : Array α) (alpha : α) (ali tr : Bool) :
+    (∀ A : Dense α, (r.size ≠ (if tr then A.cols else A.rows) ∨ x.size ≠ (if tr then A.rows else A.cols)) →
+      A.apply tiny x r tr = none ∧ A.applyAxpy tiny x y r alpha ali tr = none) ∧
+    (∀ A : Banded α, (r.size ≠ (if tr then A.cols else A.rows) ∨ x.size ≠ (if tr then A.rows else A.cols)) →
+      A.apply tiny x r tr = none ∧ A.applyAxpy tiny x y r alpha ali tr = none) := by
+  constructor
+  · intro A h
+    cases tr <;> rcases h with h | h <;> simp_all [Dense.apply, Dense.applyAxpy]
+  · intro A h
+    cases tr <;> rcases h with h | h <;> simp_all [Banded.apply, Banded.applyAxpy]
 
 /-- `banded_generic` / `apply_banded_generic` for **all** strictly increasing offset sets and all rectangular shapes:
     the (i, j) row windows built from `start_offset`/`end_offset` tile `[0, rows)`, every row is updated exactly once
@@ -334,11 +356,11 @@ theorem C01.banded_applyAxpyQ_spec (A : Banded Rat) (hA : A.wf = true) (x y r : 
       rw [C01.banded_kernel_eq (tinyRat epsQ) A hA alpha 1 x y r ali hr hy l hl, hyy, C01.tinyRat_zero_one.2]
       simp; ring
 
-/-- the banded format does not offer the transposed product: `apply_transposed(r, x)` always aborts
+/-- the banded format does not offer the transposed product: `apply_transposed(r, x)` with a non-empty result aborts
     (`banded_transposed_generic` is `XABORTM("not implemented")`), it never returns a wrong vector -/
-theorem C01.banded_transposed_not_offered {α : Type} [Field α] (tiny : α → Bool) (A : Banded α) (x r : Array α) :
-    A.apply tiny x r true = none := by
-  simp [Banded.apply]
+theorem C01.banded_transposed_not_offered {α : Type} [Field α] (tiny : α → Bool) (A : Banded α) (x r : Array α)
+    (hr : r.size ≠ 0) : A.apply tiny x r true = none := by
+  simp [Banded.apply, hr]
 
 /-- `cscr_generic`, non-transposed, stored row `nz0` (matrix row `rowNumbers[nz0]`): `a·(A x)_i + b·y_i`. -/
 theorem C01.cscr_kernel_listed_eq {α : Type} [Field α] (tiny : α → Bool) (A : Cscr α) (hA : A.wf = true) (a b : α)
@@ -777,9 +799,9 @@ theorem C01.tiny_alpha_envelope (alpha : Rat) (hal : |alpha| < epsQ) (x y r : Ar
         y.size = (if tr then A.cols * A.bw else A.rows * A.bh) →
         x.size = (if tr then A.rows * A.bh else A.cols * A.bw) → A.applyAxpyQ x y r alpha ali tr = some y) ∧
     (∀ A : Banded Rat, r.size = (if tr then A.cols else A.rows) → y.size = (if tr then A.cols else A.rows) →
-        x.size = (if tr then A.rows else A.cols) → (0 < r.size ∨ 0 < x.size) → A.applyAxpyQ x y r alpha ali tr = some y) ∧
+        x.size = (if tr then A.rows else A.cols) → A.applyAxpyQ x y r alpha ali tr = some y) ∧
     (∀ A : Dense Rat, r.size = (if tr then A.cols else A.rows) → y.size = (if tr then A.cols else A.rows) →
-        x.size = (if tr then A.rows else A.cols) → (0 < r.size ∨ 0 < x.size) → A.applyAxpyQ x y r alpha ali tr = some y) ∧
+        x.size = (if tr then A.rows else A.cols) → A.applyAxpyQ x y r alpha ali tr = some y) ∧
     (∀ (e xv : Nat → Rat) (n : Nat) (yi : Rat),
         |(yi + alpha * ∑ k ∈ range n, e k * xv k) - yi| ≤ epsQ * ∑ k ∈ range n, |e k| * |xv k|) := by
   have ht : tinyRat epsQ alpha = true := (C01.tinyRat_iff _ _).mpr hal
@@ -794,12 +816,20 @@ theorem C01.tiny_alpha_envelope (alpha : Rat) (hal : |alpha| < epsQ) (x y r : Ar
     cases tr <;> simp_all [Cscr.applyAxpyQ, Cscr.applyAxpy]
   · intro A h1 h2 h3
     cases tr <;> simp_all [Bcsr.applyAxpyQ, Bcsr.applyAxpy]
-  · intro A h1 h2 h3 hne
-    have : ¬(r.size = 0 ∧ x.size = 0) := by omega
-    cases tr <;> simp_all [Banded.applyAxpyQ, Banded.applyAxpy]
-  · intro A h1 h2 h3 hne
-    have : ¬(r.size = 0 ∧ x.size = 0) := by omega
-    cases tr <;> simp_all [Dense.applyAxpyQ, Dense.applyAxpy]
+  · intro A h1 h2 h3
+    by_cases h0 : r.size = 0
+    · have e : r = y := by
+        exact (Array.eq_empty_of_size_eq_zero h0).trans (Array.eq_empty_of_size_eq_zero (by rw [h2, ← h1]; exact h0)).symm
+      subst e
+      cases tr <;> simp_all [Banded.applyAxpyQ, Banded.applyAxpy]
+    · cases tr <;> simp_all [Banded.applyAxpyQ, Banded.applyAxpy]
+  · intro A h1 h2 h3
+    by_cases h0 : r.size = 0
+    · have e : r = y := by
+        exact (Array.eq_empty_of_size_eq_zero h0).trans (Array.eq_empty_of_size_eq_zero (by rw [h2, ← h1]; exact h0)).symm
+      subst e
+      cases tr <;> simp_all [Dense.applyAxpyQ, Dense.applyAxpy]
+    · cases tr <;> simp_all [Dense.applyAxpyQ, Dense.applyAxpy]
 
 /-- **flat overloads = Tuple/PowerVector overloads, for every nesting and every leaf kind.** `goQ` is the model of the
     members with flat `DenseVector` operands: it addresses the parts of `r`, `x`, `y` by the explicit offsets of the C++
@@ -883,7 +913,13 @@ theorem C01.metamat_tiny_alpha (M : MetaMat Rat) (hM : M.wf = true) (tr : Bool) 
       have ht := (C01.tinyRat_iff epsQ al).mpr h1
       have hyy : (if ali then r else y) = y := by cases ali; rfl; exact h5 rfl
       simp only [MetaMat.rows, MetaMat.cols] at h2 h3 h4
-      simp [MetaMat.goQ, MetaMat.go, Banded.applyAxpy, h2, h3, h4, ht, hyy]; omega
+      by_cases h0 : r.size = 0
+      · have e : r = y := by
+          exact (Array.eq_empty_of_size_eq_zero h0).trans (Array.eq_empty_of_size_eq_zero (by rw [h3, ← h2]; exact h0)).symm
+        subst e
+        simp [MetaMat.goQ, MetaMat.go, Banded.applyAxpy, h2, h3, h4, ht]
+      · have h0' : ¬ A.cols = 0 := by rw [← h2]; exact h0
+        simp [MetaMat.goQ, MetaMat.go, Banded.applyAxpy, h2, h3, h4, ht, hyy, h0']
   have ok := MetaMat.tiny_of_leaves leaf_csr leaf_bcsr leaf_dense leaf_cscr leaf_banded M hM
   cases tr
   · exact ok.1 al x y r ali hal (by simpa using hr) (by simpa using hy) (by simpa using hx) hry
@@ -1010,8 +1046,20 @@ theorem C01.apply_overwrites_r {α : Type} [Field α] (tiny : α → Bool) (ht0 
   · intro A; cases tr <;> simp [Csr.apply, Csr.kernel, initR, ht0, hs]
   · intro A; cases tr <;> simp [Cscr.apply, Cscr.kernel, initR, ht0, hs]
   · intro A; cases tr <;> simp [Bcsr.apply, Bcsr.kernel, Bcsr.kernelT, initR, ht0, hs]
-  · intro A; cases tr <;> simp [Banded.apply, Banded.kernel, initR, ht0, hs]
-  · intro A; cases tr <;> simp [Dense.apply, Dense.kernel, Dense.kernelT, initR, ht0, hs]
+  · intro A
+    by_cases h0 : r.size = 0
+    · have e : r = r2 := by
+        exact (Array.eq_empty_of_size_eq_zero h0).trans (Array.eq_empty_of_size_eq_zero (by rw [← hs]; exact h0)).symm
+      rw [e]
+    · have h0' : ¬ r2.size = 0 := by rw [← hs]; exact h0
+      cases tr <;> simp [Banded.apply, Banded.kernel, initR, ht0, hs, h0']
+  · intro A
+    by_cases h0 : r.size = 0
+    · have e : r = r2 := by
+        exact (Array.eq_empty_of_size_eq_zero h0).trans (Array.eq_empty_of_size_eq_zero (by rw [← hs]; exact h0)).symm
+      rw [e]
+    · have h0' : ¬ r2.size = 0 := by rw [← hs]; exact h0
+      cases tr <;> simp [Dense.apply, Dense.kernel, Dense.kernelT, initR, ht0, hs, h0']
 
 /-- the axpy forms with a separate result vector (`r` is not `y`): the result does not depend on the old content of
     `r` either (`copy(r, y)` resp. zero fill before the kernel loop) -/
@@ -1026,8 +1074,20 @@ theorem C01.axpy_ignores_old_r {α : Type} [Field α] (tiny : α → Bool) (x y 
   · intro A; cases tr <;> simp [Csr.applyAxpy, Csr.kernel, initR, hs]
   · intro A; cases tr <;> simp [Cscr.applyAxpy, Cscr.kernel, initR, hs]
   · intro A; cases tr <;> simp [Bcsr.applyAxpy, Bcsr.kernel, Bcsr.kernelT, initR, hs]
-  · intro A; cases tr <;> simp [Banded.applyAxpy, Banded.kernel, initR, hs]
-  · intro A; cases tr <;> simp [Dense.applyAxpy, Dense.kernel, Dense.kernelT, initR, hs]
+  · intro A
+    by_cases h0 : r.size = 0
+    · have e : r = r2 := by
+        exact (Array.eq_empty_of_size_eq_zero h0).trans (Array.eq_empty_of_size_eq_zero (by rw [← hs]; exact h0)).symm
+      rw [e]
+    · have h0' : ¬ r2.size = 0 := by rw [← hs]; exact h0
+      cases tr <;> simp [Banded.applyAxpy, Banded.kernel, initR, hs, h0']
+  · intro A
+    by_cases h0 : r.size = 0
+    · have e : r = r2 := by
+        exact (Array.eq_empty_of_size_eq_zero h0).trans (Array.eq_empty_of_size_eq_zero (by rw [← hs]; exact h0)).symm
+      rw [e]
+    · have h0' : ¬ r2.size = 0 := by rw [← hs]; exact h0
+      cases tr <;> simp [Dense.applyAxpy, Dense.kernel, Dense.kernelT, initR, hs, h0']
 
 /-- a non-trivial well-formed value: the 2×3 matrix [[1,0,2],[0,3,0]] -/
 example : (⟨2, 3, #[0, 2, 3], #[0, 2, 1], #[1, 2, 3]⟩ : Csr Rat).wf = true := by decide +kernel
